@@ -78,8 +78,16 @@ def pins_session3d():
         'A', ('e', 'w'), codec='oer')
 
 
+def pins_session3e():
+    cx = Ty('CHOICE', root=[M('a', Ty('BOOLEAN'))], ext=[M('c', seq(M('x', Ty('BOOLEAN')), M('foo', Ty('GeneralString'))))])
+    spec = mod([('C', cx), ('S', seq(M('p', Ty('REF', ref='C')), M('w', Ty('INTEGER', rng=Rng(0, 255)))))])
+    for prop in ('C01', 'C05'):
+        pin(prop, 'per-open-type-16k', spec, 'S', {'p': ('c', {'x': True, 'foo': 'z' * 16384}), 'w': 7}, codec='per')
+
+
 def main():
     late_pins()
+    pins_session3e()
     pins_session3d()
     pins_session3c()
     pins_session3b()
